@@ -319,7 +319,7 @@ where
     let next = Arc::new(AtomicUsize::new(0));
     let (tx, rx) = mpsc::channel::<(usize, usize, Option<ScenarioResult>)>();
     // worker -> (scenario idx, start time)
-    let current: Arc<Mutex<HashMap<usize, (usize, Instant)>>> = Arc::new(Mutex::new(HashMap::new()));
+    let current: Arc<Mutex<HashMap<usize, (usize, Instant, u64)>>> = Arc::new(Mutex::new(HashMap::new()));
     let total = cfg.scenarios;
     let only = cfg.only;
     // VERIF_BUDGET_S caps the wall-clock budget of any run (used to smoke-test the thorough tier)
@@ -349,7 +349,7 @@ where
                     let _ = tx.send((wid, usize::MAX, None));
                     return;
                 }
-                current.lock().unwrap().insert(wid, (idx, Instant::now()));
+                current.lock().unwrap().insert(wid, (idx, Instant::now(), own_tid()));
                 let sseed = seed
                     .wrapping_mul(0x9E3779B97F4A7C15)
                     .wrapping_add((idx as u64).wrapping_mul(0xD1B54A32D192ED03));
@@ -368,7 +368,7 @@ where
                     .lock()
                     .unwrap()
                     .get(&wid)
-                    .map(|(i, _)| *i == idx)
+                    .map(|(i, _, _)| *i == idx)
                     .unwrap_or(false);
                 if !still_mine {
                     // watchdog gave up on us
@@ -387,6 +387,7 @@ where
         live_workers += 1;
     }
     let mut summary = Summary::default();
+    let (mut spin_diagnoses, mut livelock_found) = (0u32, false);
     while live_workers > 0 {
         match rx.recv_timeout(Duration::from_millis(500)) {
             Ok((_wid, _idx, None)) => live_workers -= 1,
@@ -395,23 +396,44 @@ where
                 let mut stuck = Vec::new();
                 {
                     let cur = current.lock().unwrap();
-                    for (wid, (idx, t)) in cur.iter() {
+                    for (wid, (idx, t, tid)) in cur.iter() {
                         if t.elapsed() > cfg.watchdog {
-                            stuck.push((*wid, *idx));
+                            stuck.push((*wid, *idx, *tid));
                         }
                     }
                 }
-                for (wid, idx) in stuck {
+                for (wid, idx, tid) in stuck {
                     current.lock().unwrap().remove(&wid);
-                    summary.absorb(
-                        idx,
-                        ScenarioResult::inconclusive("wall-clock watchdog fired"),
-                    );
+                    // The watchdog itself is never a verdict.  For checks whose property is about not
+                    // stalling, a thread that burns CPU with the same library function innermost on
+                    // its stack in three samples is diagnosed as a livelock inside the library.
+                    // (at most two diagnoses per run; once a livelock is established no further
+                    // scenarios are started - the abandoned threads keep their cores busy)
+                    let diag = if SPIN_IS_VIOLATION.load(Ordering::SeqCst) && spin_diagnoses < 2 && !livelock_found {
+                        spin_diagnoses += 1;
+                        diagnose_spin(tid)
+                    } else {
+                        None
+                    };
+                    if diag.is_some() {
+                        livelock_found = true;
+                        next.store(total, Ordering::SeqCst);
+                    }
+                    let verdict = match (SPIN_IS_VIOLATION.load(Ordering::SeqCst), diag) {
+                        (true, Some((func, stacks))) => ScenarioResult::violated(
+                            format!("the scenario's thread spins without progress inside {func} (CPU-bound, same innermost library frame in 3 stack samples taken after the {} s watchdog)", cfg.watchdog.as_secs()),
+                            json!({"scenario": idx, "livelock_in": func, "stack_samples": stacks}),
+                        ),
+                        _ => ScenarioResult::inconclusive("wall-clock watchdog fired"),
+                    };
+                    summary.absorb(idx, verdict);
                     live_workers -= 1;
                     // replace the lost worker
-                    spawn_worker(next_wid);
-                    next_wid += 1;
-                    live_workers += 1;
+                    if !livelock_found {
+                        spawn_worker(next_wid);
+                        next_wid += 1;
+                        live_workers += 1;
+                    }
                 }
             }
             Err(mpsc::RecvTimeoutError::Disconnected) => break,
@@ -419,6 +441,92 @@ where
     }
     summary.wall_s = started.elapsed().as_secs_f64();
     summary
+}
+
+static SPIN_IS_VIOLATION: std::sync::atomic::AtomicBool = std::sync::atomic::AtomicBool::new(false);
+
+/// Checks of properties that say "never stalls / never hangs" turn a diagnosed livelock inside the
+/// library into a verdict (see `diagnose_spin`); everywhere else a stuck scenario is inconclusive.
+pub fn set_spin_is_violation(on: bool) {
+    SPIN_IS_VIOLATION.store(on, Ordering::SeqCst);
+}
+
+fn own_tid() -> u64 {
+    std::fs::read_link("/proc/thread-self")
+        .ok()
+        .and_then(|p| p.file_name().map(|f| f.to_string_lossy().into_owned()))
+        .and_then(|s| s.parse().ok())
+        .unwrap_or(0)
+}
+
+fn thread_cpu_ticks(tid: u64) -> Option<u64> {
+    let s = std::fs::read_to_string(format!("/proc/self/task/{tid}/stat")).ok()?;
+    let rest = &s[s.rfind(')')? + 2..];
+    let f: Vec<&str> = rest.split_whitespace().collect();
+    Some(f.get(11)?.parse::<u64>().ok()? + f.get(12)?.parse::<u64>().ok()?)
+}
+
+/// Is thread `tid` of this process CPU-bound with the same `anemo::` function innermost on its
+/// stack in three gdb samples one second apart?  Returns that function and the sampled stacks.
+fn diagnose_spin(tid: u64) -> Option<(String, Vec<Vec<String>>)> {
+    if tid == 0 || cfg!(miri) {
+        return None;
+    }
+    let a = thread_cpu_ticks(tid)?;
+    std::thread::sleep(Duration::from_secs(1));
+    let b = thread_cpu_ticks(tid)?;
+    eprintln!("watchdog: thread {tid} used {} cpu ticks in 1 s", b.saturating_sub(a));
+    if b.saturating_sub(a) < 20 {
+        return None; // not burning a core: blocked or waiting, not a livelock
+    }
+    let pid = std::process::id();
+    let mut innermost: Vec<String> = Vec::new();
+    let mut stacks = Vec::new();
+    for _ in 0..3 {
+        // gdb stops every thread of this process, this one included: its output must go to a file,
+        // not to a pipe that only this (stopped) thread would drain
+        let path = std::env::temp_dir().join(format!("vcheck-gdb-{pid}-{tid}.txt"));
+        let file = std::fs::File::create(&path).ok()?;
+        let _ = std::process::Command::new("gdb")
+            .args(["-p", &pid.to_string(), "-batch", "-ex", "thread apply all bt 60"])
+            .stdin(std::process::Stdio::null())
+            .stdout(file)
+            .stderr(std::process::Stdio::null())
+            .status()
+            .ok()?;
+        let text = std::fs::read_to_string(&path).unwrap_or_default();
+        let _ = std::fs::remove_file(&path);
+        // the block of our thread
+        let marker = format!("(LWP {tid})");
+        let mut frames: Vec<String> = Vec::new();
+        let mut inside = false;
+        for l in text.lines() {
+            if l.starts_with("Thread ") {
+                inside = l.contains(&marker);
+                continue;
+            }
+            if inside && l.trim_start().starts_with('#') {
+                frames.push(l.trim().chars().take(160).collect());
+            }
+        }
+        let lib = frames.iter().find_map(|f| {
+            let i = f.find("anemo::")?;
+            // not the harness crate (anemo_verif::) - "anemo::" preceded by a non-identifier char
+            if i > 0 && f.as_bytes()[i - 1].is_ascii_alphanumeric() {
+                return None;
+            }
+            Some(f[i..].split(|c: char| c == '(' || c == ' ' || c == '<').next().unwrap_or("").to_owned())
+        });
+        eprintln!("watchdog: thread {tid} stack sample: {} frames, innermost library frame {:?}", frames.len(), lib);
+        innermost.push(lib.unwrap_or_default());
+        stacks.push(frames.into_iter().take(14).collect());
+        std::thread::sleep(Duration::from_secs(1));
+    }
+    if !innermost[0].is_empty() && innermost.iter().all(|f| f == &innermost[0]) {
+        Some((innermost[0].clone(), stacks))
+    } else {
+        None
+    }
 }
 
 // ------------------------------------------------------------------------------------------------
